@@ -32,6 +32,15 @@ package base58
 //@   modifies nothing
 //@   ensures fresh(result)
 //@   assumes seq(result) == DecodeOf(b)
+//@   -- [alphabet] (VERIFIED, stated the way the loop sees the string): every rune v that the range loop turns into a base58 digit is
+//@   -- at most 255 and is looked up as itself: the digit added to `total` is b58[v] and is not the 255 marker. (A rune above 255, or
+//@   -- one outside the alphabet, returns the empty result before this line.) The auxiliary variable `outside` records a violation at
+//@   -- the line that consumes the digit; it never influences the program.
+//@   ghost outside = 0
+//@   at "total = total*58 + uint64(tmp)" ghost outside = (v > 255 || v < 0 || tmp == 255 || tmp != b58[v]) ? 1 : ghostvar(outside)
+//@   ensures [alphabet] ghostvar(outside) == 0
+//@   loop 0 invariant [alphabet] ghostvar(outside) == 0
+//@   loop 1 invariant [alphabet] ghostvar(outside) == 0
 //@   loop 0 invariant len(t) <= len(b)
 //@   loop 2 invariant 0 <= numZeros && numZeros <= len(b)
 
